@@ -178,7 +178,7 @@ STACKS = [
     # family N3 M3 f
     S('strided_s3_f3', ['strided:s3', 'array:f3'], family='N3M3f', thr=True),
     S('mortonb_s3_f3', ['mortonb:s3', 'array:f3'], family='N3M3f', thr=True),
-    S('mortonp_s3_f3', ['mortonp:s3', 'array:f3'], family='N3M3f'),
+    S('mortonp_s3_f3', ['mortonp:s3', 'array:f3'], family='N3M3f', thr=True),
     # family N3 M1 f (N != M)
     S('strided_s3_f1', ['strided:s3', 'array:f1'], family='N3M1f'),
     S('mortonp_s3_f1', ['mortonp:s3', 'array:f1'], 'T', family='N3M1f'),
@@ -212,7 +212,7 @@ STACKS = [
     S('aff_nn_strided_s3_f3', ['affine', 'nn', 'strided:s3', 'array:f3'], family='WN3M3f', thr=True),
     S('aff_lin_strided_s3_f3', ['affine', 'lin', 'strided:s3', 'array:f3'], family='WN3M3f', thr=True),
     S('aff_nn_mortonb_s3_f3', ['affine', 'nn', 'mortonb:s3', 'array:f3'], family='WN3M3f'),
-    S('aff_lin_mortonp_s3_f3', ['affine', 'lin', 'mortonp:s3', 'array:f3'], family='WN3M3f'),
+    S('aff_lin_mortonp_s3_f3', ['affine', 'lin', 'mortonp:s3', 'array:f3'], family='WN3M3f', thr=True),
     S('aff_lin_mortonb_s3_f3', ['affine', 'lin', 'mortonb:s3', 'array:f3'], 'T', family='WN3M3f', thr=True),
     S('aff_nn_mortonp_s3_f3', ['affine', 'nn', 'mortonp:s3', 'array:f3'], 'T', family='WN3M3f'),
     S('aff_nn_strided_s3_d3', ['affine', 'nn', 'strided:s3', 'array:d3'], family='WN3M3d'),
